@@ -4,6 +4,7 @@ import (
 	"fmt"
 	"sort"
 	"strings"
+	"sync"
 
 	"verif/mc"
 )
@@ -66,7 +67,7 @@ func C09(tier string) int {
 	if res.Thorough() {
 		bound = 2
 	}
-	res.Rule = fmt.Sprintf("for each of %d scenarios (every default side-effect path of both protocols, delivery, forwarding, GET endpoints; each POST scenario also with application hooks that log / fail after the default effect / call back into the library, and again started from the state an earlier request of the same kind left behind; a generated addressing family with forwarding filters that work in place): the fault-free run and every run with <= %d of its fallible seam calls (Database incl. Lock/Unlock, Transport, NewTransport, callbacks) failing, enumerated depth-first by choice list; non-trivial = a run in which the library took at least one lock; distinct = (scenario, choice list)", len(corpus), bound)
+	res.Rule = fmt.Sprintf("for each of %d scenarios (every default side-effect path of both protocols, delivery, forwarding, GET endpoints; each POST scenario also with application hooks that log / fail after the default effect / call back into the library, and again started from the state an earlier request of the same kind left behind; a generated addressing family with forwarding filters that work in place); plus every ordered pair of POST scenarios as a fault-free two-request history on one application and one Actor: the fault-free run and every run with <= %d of its fallible seam calls (Database incl. Lock/Unlock, Transport, NewTransport, callbacks) failing, enumerated depth-first by choice list; non-trivial = a run in which the library took at least one lock; distinct = (scenario, choice list)", len(corpus), bound)
 	res.Assumptions = []string{"an erroring Unlock still frees the lock, an erroring Lock does not acquire it",
 		"locks are counted, not blocking (one request cannot hang the check)", "fault bound as stated"}
 	mk := &minimalKeys{}
@@ -117,6 +118,23 @@ func C09(tier string) int {
 			}
 		}
 	}
+	// every ordered pair of POST scenarios as a two-request history on one application and one Actor
+	// (fault-free): the lock discipline of a request must not depend on what was served before it
+	pairs := PairHistoryCorpus()
+	var pmu sync.Mutex
+	parallel(len(pairs), func(i int) {
+		sc := pairs[i]
+		out := sc.Exec(mc.NewExec(nil), false)
+		pmu.Lock()
+		defer pmu.Unlock()
+		res.Case("history|" + sc.Name)
+		for _, v := range out.Req.Violations {
+			base := fmt.Sprintf("%s|site=%s|holder=%s", v.Kind, NormSite(v.Site), NormSite(v.Holder))
+			res.Violate(mk.key(base, nil)+"|in-a-history", fmt.Sprintf("%s in history %s", v.String(), sc.Name), M{"check": "C09", "scenario": sc.Name, "part": "pair-history", "violation": v.String()})
+		}
+	})
+	res.Extra["pair_histories"] = len(pairs)
+	res.Evaluations += len(pairs)
 	res.Extra["fault_bound_completed"] = bound
 	res.Extra["scenarios"] = len(corpus)
 	return res.Finish()
